@@ -45,6 +45,21 @@ pub open spec fn exact_rel<D: Buf, E>(rem: u64, item: Poll<Option<Result<D, E>>>
     }
 }
 
+/// C07 projection: a short, over-long or failing entity stream surfaces as an error.
+pub open spec fn exact_faults<D: Buf, E>(rem: u64, item: Poll<Option<Result<D, E>>>, r: Poll<Option<Result<D, E>>>) -> bool {
+    &&& (item matches Poll::Ready(Some(Err(_))) ==> r matches Poll::Ready(Some(Err(_))))
+    &&& ((item matches Poll::Ready(None) && rem != 0) ==> r matches Poll::Ready(Some(Err(_))))
+    &&& (item matches Poll::Ready(Some(Ok(d))) ==> (d.bytes().len() > rem ==> r matches Poll::Ready(Some(Err(_)))))
+}
+/// C02 projection: a data frame is the entity's chunk, unchanged.
+pub open spec fn exact_identity<D: Buf, E>(item: Poll<Option<Result<D, E>>>, r: Poll<Option<Result<D, E>>>) -> bool {
+    r matches Poll::Ready(Some(Ok(_))) ==> r == item
+}
+/// C20 projection: nothing but the end comes out once everything was delivered and the entity stream has ended.
+pub open spec fn exact_stays_ended<D: Buf, E>(rem: u64, item: Poll<Option<Result<D, E>>>, r: Poll<Option<Result<D, E>>>) -> bool {
+    (rem == 0 && item matches Poll::Ready(None)) ==> r matches Poll::Ready(None)
+}
+
 impl<D: Buf, E: FromBoxError> ExactLenStream<D, E> {
     //@fn src/body.rs :: impl ExactLenStream :: fn new props=C01,C02,C07,C12 rules=T_stream
     fn new(len: u64, stream: Inner<D, E>) -> (r: Self)
@@ -57,7 +72,11 @@ impl<D: Buf, E: FromBoxError> ExactLenStream<D, E> {
     //@fn src/body.rs :: impl Stream for ExactLenStream :: fn poll_next props=C01,C02,C07,C12,C20 implicit=C13,C20 rules=R1
     fn poll_next(&mut self, cx: &mut Context) -> (r: Poll<Option<Result<D, E>>>)
         ensures
-            /*@C01,C02,C07,C12,C20 #exact_rel*/ exact_rel(old(self).remaining, old(self).stream.next_item(), r, final(self).remaining),
+            /*@C00 #exact_rel*/ exact_rel(old(self).remaining, old(self).stream.next_item(), r, final(self).remaining),
+            /*@C01,C12 #exact_accounting*/ acct_rel(old(self).remaining, r, final(self).remaining),
+            /*@C07 #exact_faults*/ exact_faults(old(self).remaining, old(self).stream.next_item(), r),
+            /*@C02 #exact_identity*/ exact_identity(old(self).stream.next_item(), r),
+            /*@C20 #exact_stays_ended*/ exact_stays_ended(old(self).remaining, old(self).stream.next_item(), r),
             /*@C02,C07 #stream_advanced*/ final(self).stream == old(self).stream.after(),
     //@body
     //@end
@@ -131,7 +150,7 @@ impl<D: DataT, E: FromBoxError> MultipartStream<D, E> {
     fn poll_next(&mut self, cx: &mut Context) -> (r: Poll<Option<Result<D, E>>>)
         requires old(self).wf(),
         ensures
-            /*@C01,C06,C07,C12,C20 #wf_preserved*/ !(r matches Poll::Ready(Some(Err(_)))) ==> final(self).wf(),
+            /*@C01,C06,C07,C12,C20 #wf_preserved shared*/ !(r matches Poll::Ready(Some(Err(_)))) ==> final(self).wf(),
             /*@C12,C20 #wf_after_error*/ (r matches Poll::Ready(Some(Err(_)))) ==> final(self).wf(),
             /*@C06 #frame_unchanged*/ final(self).ranges == old(self).ranges && final(self).entity == old(self).entity && final(self).part_headers@.len() == old(self).part_headers@.len(),
             /*@C01,C12 #accounting*/ match r {
@@ -140,6 +159,8 @@ impl<D: DataT, E: FromBoxError> MultipartStream<D, E> {
                 Poll::Ready(None) => old(self).remaining == 0 && final(self).remaining == 0,
                 Poll::Pending => final(self).remaining == old(self).remaining,
             },
+            /*@C07 #part_fault_is_error*/ (old(self).cur matches Some(c) && (c.stream.next_item() matches Poll::Ready(Some(Err(_))) || (c.stream.next_item() matches Poll::Ready(None) && c.remaining != 0)
+                    || (c.stream.next_item() matches Poll::Ready(Some(Ok(d))) && d.bytes().len() > c.remaining))) ==> r matches Poll::Ready(Some(Err(_))),
             /*@C12,C20 #terminal_after_end_or_error*/ (r matches Poll::Ready(Some(Err(_))) || r matches Poll::Ready(None)) ==> final(self).terminal(),
             /*@C20 #terminal_stays*/ old(self).terminal() ==> r matches Poll::Ready(None),
             /*@C06 #order*/ final(self).state >= old(self).state
@@ -156,10 +177,11 @@ impl<D: DataT, E: FromBoxError> MultipartStream<D, E> {
                                 && #[trigger] s.next_item() == r))
             },
     //@body
-    //@ loop 1: invariant this.wf(), this.remaining == old(self).remaining, *final(this) == *final(self),
+    //@ loop 1: invariant /*@C01,C06,C07,C12,C20 #inv_wf shared*/ this.wf(), this.remaining == old(self).remaining, *final(this) == *final(self),
     //@ | this.ranges == old(self).ranges, this.entity == old(self).entity, this.part_headers@ == old(self).part_headers@,
     //@ | this.state == old(self).state || (this.state == old(self).state + 1 && this.state % 2 == 0 && this.cur.is_none()),
     //@ | old(self).terminal() ==> this.terminal(),
+    //@ | /*@C07 #inv_first_poll_or_clean_part_end*/ this.cur == old(self).cur || (old(self).cur matches Some(c) ==> (c.stream.next_item() matches Poll::Ready(None) && c.remaining == 0)),
     //@ | decreases 2 * this.ranges@.len() + 1 - this.state, (if this.cur.is_some() { 0int } else { 1int }),
     //@ after "loop {": proof { lemma_bits(this.state); lemma_bits(this.ranges.len()); lemma_rest_nonneg(this.part_headers@, this.ranges@, (this.state / 2) as int + 1); lemma_rest_nonneg(this.part_headers@, this.ranges@, (this.state / 2) as int); } let ghost pre = *this; let ghost ph0 = this.part_headers@;
     //@ before "let i = this.state >> 1;": proof { lemma_bits(this.state); lemma_rest_nonneg(this.part_headers@, this.ranges@, (this.state / 2) as int + 1); lemma_rest_nonneg(this.part_headers@, this.ranges@, (this.state / 2) as int); }
@@ -198,10 +220,15 @@ impl<D: DataT, E: FromBoxError> BodyStream<D, E> {
         ensures
             /*@C01,C12,C20 #dispatch_wf*/ final(self).wf(),
             /*@C01,C12,C20 #dispatch_once*/ *old(self) matches BodyStream::Once(c) ==> r == Poll::Ready(c) && *final(self) == BodyStream::<D, E>::Once(None),
-            /*@C01,C12,C20 #dispatch_exact*/ *old(self) matches BodyStream::ExactLen(s0) ==> (*final(self) matches BodyStream::ExactLen(s1)
+            /*@C00 #dispatch_exact*/ *old(self) matches BodyStream::ExactLen(s0) ==> (*final(self) matches BodyStream::ExactLen(s1)
                 && exact_rel(s0.remaining, s0.stream.next_item(), r, s1.remaining) && s1.stream == s0.stream.after()),
-            /*@C01,C12,C20 #dispatch_multipart*/ *old(self) matches BodyStream::Multipart(s0) ==> (*final(self) matches BodyStream::Multipart(s1)
-                && acct_rel(s0.remaining, r, s1.remaining)
+            /*@C01,C12 #dispatch_exact_accounting*/ *old(self) matches BodyStream::ExactLen(s0) ==> (*final(self) matches BodyStream::ExactLen(s1) && acct_rel(s0.remaining, r, s1.remaining)),
+            /*@C07 #dispatch_exact_faults*/ *old(self) matches BodyStream::ExactLen(s0) ==> exact_faults(s0.remaining, s0.stream.next_item(), r),
+            /*@C02 #dispatch_exact_identity*/ *old(self) matches BodyStream::ExactLen(s0) ==> exact_identity(s0.stream.next_item(), r),
+            /*@C20 #dispatch_exact_stays_ended*/ *old(self) matches BodyStream::ExactLen(s0) ==> exact_stays_ended(s0.remaining, s0.stream.next_item(), r),
+            /*@C01,C12 #dispatch_multipart_accounting*/ *old(self) matches BodyStream::Multipart(s0) ==> (*final(self) matches BodyStream::Multipart(s1)
+                && acct_rel(s0.remaining, r, s1.remaining)),
+            /*@C12,C20 #dispatch_multipart_terminal*/ *old(self) matches BodyStream::Multipart(s0) ==> (*final(self) matches BodyStream::Multipart(s1)
                 && ((r matches Poll::Ready(Some(Err(_))) || r matches Poll::Ready(None)) ==> s1.terminal())
                 && (s0.terminal() ==> r matches Poll::Ready(None))),
             /*@C12,C20 #dispatch_chunker*/ *old(self) matches BodyStream::Chunker(c0) ==> (*final(self) matches BodyStream::Chunker(c1) && c0.poll_rel(r, c1)),
@@ -226,10 +253,15 @@ impl<D: DataT, E: FromBoxError> Body<D, E> {
         ensures
             /*@C01,C07,C12,C20 #frame_wf*/ final(self).0.wf(),
             /*@C01,C12,C20 #frame_once*/ old(self).0 matches BodyStream::Once(c) ==> unframe(r) == Poll::Ready(c) && final(self).0 == BodyStream::<D, E>::Once(None),
-            /*@C01,C02,C07,C12,C20 #frame_exact*/ old(self).0 matches BodyStream::ExactLen(s0) ==> (final(self).0 matches BodyStream::ExactLen(s1)
+            /*@C00 #frame_exact*/ old(self).0 matches BodyStream::ExactLen(s0) ==> (final(self).0 matches BodyStream::ExactLen(s1)
                 && exact_rel(s0.remaining, s0.stream.next_item(), unframe(r), s1.remaining) && s1.stream == s0.stream.after()),
-            /*@C01,C06,C07,C12,C20 #frame_multipart*/ old(self).0 matches BodyStream::Multipart(s0) ==> (final(self).0 matches BodyStream::Multipart(s1)
-                && acct_rel(s0.remaining, unframe(r), s1.remaining)
+            /*@C01,C12 #frame_exact_accounting*/ old(self).0 matches BodyStream::ExactLen(s0) ==> (final(self).0 matches BodyStream::ExactLen(s1) && acct_rel(s0.remaining, unframe(r), s1.remaining)),
+            /*@C07 #frame_exact_faults*/ old(self).0 matches BodyStream::ExactLen(s0) ==> exact_faults(s0.remaining, s0.stream.next_item(), unframe(r)),
+            /*@C02 #frame_exact_identity*/ old(self).0 matches BodyStream::ExactLen(s0) ==> exact_identity(s0.stream.next_item(), unframe(r)),
+            /*@C20 #frame_exact_stays_ended*/ old(self).0 matches BodyStream::ExactLen(s0) ==> exact_stays_ended(s0.remaining, s0.stream.next_item(), unframe(r)),
+            /*@C01,C12 #frame_multipart_accounting*/ old(self).0 matches BodyStream::Multipart(s0) ==> (final(self).0 matches BodyStream::Multipart(s1)
+                && acct_rel(s0.remaining, unframe(r), s1.remaining)),
+            /*@C07,C12,C20 #frame_multipart_terminal*/ old(self).0 matches BodyStream::Multipart(s0) ==> (final(self).0 matches BodyStream::Multipart(s1)
                 && ((unframe(r) matches Poll::Ready(Some(Err(_))) || unframe(r) matches Poll::Ready(None)) ==> s1.terminal())
                 && (s0.terminal() ==> unframe(r) matches Poll::Ready(None))),
             /*@C08,C11,C12,C20 #frame_chunker*/ old(self).0 matches BodyStream::Chunker(c0) ==> (final(self).0 matches BodyStream::Chunker(c1) && c0.poll_rel(unframe(r), c1)),
